@@ -46,7 +46,7 @@ func shapeOf(v ssa.Value, d int) string {
 	case *ssa.UnOp:
 		if x.Op == token.MUL {
 			if _, f, base, ok := fieldOfAddr(x.X); ok {
-				return shapeOf(base, d+1) + "." + f
+				return strings.TrimPrefix(shapeOf(base, d+1), "&") + "." + f
 			}
 			if ia, ok := x.X.(*ssa.IndexAddr); ok {
 				return shapeOf(ia.X, d+1) + "[" + shapeOf(ia.Index, d+1) + "]"
@@ -56,7 +56,7 @@ func shapeOf(v ssa.Value, d int) string {
 		return x.Op.String() + shapeOf(x.X, d+1)
 	case *ssa.FieldAddr:
 		_, f, base, _ := fieldOfAddr(x)
-		return "&" + shapeOf(base, d+1) + "." + f
+		return "&" + strings.TrimPrefix(shapeOf(base, d+1), "&") + "." + f
 	case *ssa.Field:
 		_, f, base, _ := fieldLoad(x)
 		return shapeOf(base, d+1) + "." + f
